@@ -58,9 +58,9 @@ def expected(st):
     return (node(s), p[1], eo)
 
 
-def read_impl(text):
+def read_impl(text, source_file=None):
     from shexer.io.graph.yielder.nt_triples_yielder import NtTriplesYielder
-    y = NtTriplesYielder(raw_graph=text)
+    y = NtTriplesYielder(raw_graph=text) if source_file is None else NtTriplesYielder(source_file=source_file)
     old = signal.signal(signal.SIGALRM, _alarm)
     signal.alarm(30)
     try:
@@ -175,6 +175,21 @@ def run(ctx):
             elif not viol:
                 viol.append({"what": "document of %d statements: order / count differs although every line alone is read correctly" % len(chunk),
                              "doc": doc[:2000], "got_n": len(r[1]), "errors": r[2]})
+        # the same document read from a file (another line reader)
+        import tempfile, os
+        fd, path = tempfile.mkstemp(prefix="verif_c06_", suffix=".nt")
+        try:
+            with os.fdopen(fd, "w", encoding="utf-8", newline="") as fh:
+                fh.write(doc)
+            rf = read_impl(None, source_file=path)
+            stats["file_documents"] = stats.get("file_documents", 0) + 1
+            if (rf[0] != 'ok' or rf[1] != exp or rf[2] != 0) and not F.match(kf, {"kind": "nt_doc", "doc": doc}) and not any(v.get("channel") == "file" for v in viol):
+                first = next((k for k, (a, b) in enumerate(zip(rf[1], exp)) if a != b), min(len(rf[1]), len(exp)))
+                viol.append({"what": "document of %d statements read from a FILE: %s" % (len(chunk), rf[0] if rf[0] != 'ok' else
+                                     "%d triples for %d statements, %d error lines; first difference at statement %d" % (len(rf[1]), len(exp), rf[2], first)),
+                             "channel": "file", "doc": doc[:2000], "line": lines[j + first] if j + first < len(lines) else None})
+        finally:
+            os.remove(path)
     # correspondence with the model
     if ctx.driver_ok:
         mres = model.run_driver(mlines + ["RUN\tntlines\tall"]).get("all", [])
